@@ -477,8 +477,9 @@ Lemma keq_transfer (f : srow -> bool) (v : bool) w o :
   Forall (fun y => f y = v) o -> Forall (fun y => f y = v) w.
 Proof.
   intros Hf H. induction H as [|a b w o Hab H IH]; intros Hw Ho Hv; [constructor|].
-  inversion Hw as [|a' w' Wa Ww]; inversion Ho as [|b' o' Wb Wo]; inversion Hv as [|b'' o'' Vb Vo]; subst.
-  constructor; [rewrite (Hf a b Wa Wb Hab); exact Vb|apply IH; assumption].
+  constructor.
+  - rewrite (Hf a b (Forall_inv Hw) (Forall_inv Ho) Hab). exact (Forall_inv Hv).
+  - apply IH; [exact (Forall_inv_tail Hw)|exact (Forall_inv_tail Ho)|exact (Forall_inv_tail Hv)].
 Qed.
 
 Section Core.
@@ -525,10 +526,9 @@ Proof.
   (* w1 is non-empty; its head is <= o, and everything in pre is below it *)
   assert (Fpre : Forall (fun y => f y = true) pre).
   { destruct o1 as [|y0 o1']; [destruct Ho1|].
-    inversion K1 as [|y y0' w1' o1'' Hy K1']; subst y0' o1'' w1.
-    inversion Fw1 as [|y' w1'' Fy _]; subst.
-    inversion Ww1 as [|y' w1'' Wy _]; subst.
-    rewrite Hdec in Hss. apply SSorted_app_inv in Hss. destruct Hss as (_ & _ & H12).
+    destruct w1 as [|y w1']; [inversion K1|].
+    pose proof (Forall_inv Fw1) as Fy. pose proof (Forall_inv Ww1) as Wy. cbn beta in Fy.
+    rewrite Hdec, Ewant in Hss. apply SSorted_app_inv in Hss. destruct Hss as (_ & _ & H12).
     rewrite Forall_forall in Wpre |- *. intros a Ha.
     apply (Hmono a y (Wpre a Ha) Wy); [|exact Fy].
     apply H12; [exact Ha|]. cbn [app]. left. reflexivity. }
@@ -568,9 +568,8 @@ Proof.
   pose proof (keq_transfer g false w2 o2 Hcong K2 Ww2 Wo2 Fo2) as Fw2.
   assert (Ftail : Forall (fun y => g y = false) tail).
   { destruct o2 as [|y0 o2']; [destruct Ho2|].
-    inversion K2 as [|y y0' w2' o2'' Hy K2']; subst y0' o2'' w2.
-    inversion Fw2 as [|y' w2'' Fy _]; subst.
-    inversion Ww2 as [|y' w2'' Wy _]; subst.
+    destruct w2 as [|y w2']; [inversion K2|].
+    pose proof (Forall_inv Fw2) as Fy. pose proof (Forall_inv Ww2) as Wy. cbn beta in Fy.
     rewrite Hdec, Ewant in Hss. rewrite <- app_assoc, app_assoc in Hss.
     apply SSorted_app_inv in Hss. destruct Hss as (_ & Hss2 & _).
     apply SSorted_app_inv in Hss2. destruct Hss2 as (_ & _ & H12).
@@ -593,3 +592,194 @@ Proof.
 Qed.
 End Core.
 End Slice.
+
+(* out sits at offset `off` inside a sorted permutation of inp, as soon as its keys
+   are those of a segment of the sorted input starting at `off` *)
+Lemma order_slice_core cs inp off out want tail :
+  Forall (srow_wf cs) inp ->
+  sub_bag out inp = true -> sortedb cs out = true ->
+  skipn off (isort cs inp) = want ++ tail -> Forall2 (keq cs) want out ->
+  exists r, Permutation (firstn off r ++ out ++ skipn off r) inp /\
+    Sorted (fun a b => sle cs a b = true) (firstn off r ++ out ++ skipn off r) /\
+    length inp = length out + length r.
+Proof.
+  intros Hwf Hbag Hsorted Hdec Hkeys.
+  destruct (sub_bag_sound out inp Hbag) as [rest Hrest].
+  pose (s := isort cs inp). pose (r := isort cs rest). exists r.
+  assert (Hr : Permutation r rest) by apply isort_perm.
+  assert (Hs : Permutation s inp) by apply isort_perm.
+  assert (Hperm : Permutation s (out ++ rest)) by (eapply perm_trans; [exact Hs|exact Hrest]).
+  assert (Wfs : Forall (srow_wf cs) s) by apply (Permutation_Forall (Permutation_sym Hs) Hwf).
+  pose proof (Permutation_Forall Hrest Hwf) as W. apply Forall_app in W. destruct W as [Wout Wrest].
+  assert (Wr : Forall (srow_wf cs) r) by apply (Permutation_Forall (Permutation_sym Hr) Wrest).
+  assert (SSs : StronglySorted (fun a b => sle cs a b = true) s).
+  { apply Sorted_StronglySorted_wf; [exact Wfs|]. apply sortedb_Sorted, isort_sorted. }
+  assert (SSr : StronglySorted (fun a b => sle cs a b = true) r).
+  { apply Sorted_StronglySorted_wf; [exact Wr|]. apply sortedb_Sorted, isort_sorted. }
+  assert (SSo : StronglySorted (fun a b => sle cs a b = true) out).
+  { apply Sorted_StronglySorted_wf; [exact Wout|]. apply sortedb_Sorted, Hsorted. }
+  split; [|split].
+  - eapply perm_trans; [apply Permutation_app_swap_app|]. rewrite firstn_skipn.
+    eapply perm_trans; [apply Permutation_app_head, Hr|apply Permutation_sym, Hrest].
+  - destruct (Nat.le_gt_cases (length s) off) as [Hge|Hlt].
+    + fold s in Hdec. rewrite (skipn_all2 s Hge) in Hdec. symmetry in Hdec.
+      apply app_eq_nil in Hdec. destruct Hdec as [Ew _]. rewrite Ew in Hkeys.
+      destruct out as [|o0 out']; [|inversion Hkeys].
+      cbn [app]. rewrite firstn_skipn. apply sortedb_Sorted, isort_sorted.
+    + assert (Hdec' : s = firstn off s ++ want ++ tail).
+      { rewrite <- Hdec. symmetry. apply firstn_skipn. }
+      assert (Hlen : length (firstn off s) = off) by (apply firstn_length_le; lia).
+      apply StronglySorted_Sorted.
+      destruct (SSorted_app_inv cs (firstn off r) (skipn off r)) as (SSb & SSa & Hba).
+      { rewrite firstn_skipn. exact SSr. }
+      apply SSorted_app; [exact SSb|apply SSorted_app; [exact SSo|exact SSa|]|].
+      * intros a b Ha Hb.
+        pose proof (core_after cs s out rest r (firstn off s) want tail a
+                      Wfs SSs SSo SSr Hperm Hr Hdec' Hkeys Ha) as H.
+        rewrite Hlen in H. rewrite Forall_forall in H. apply H, Hb.
+      * intros a b Ha Hb. apply in_app_or in Hb. destruct Hb as [Hb|Hb]; [|apply Hba; assumption].
+        pose proof (core_before cs s out rest r (firstn off s) want tail b
+                      Wfs SSs SSo SSr Hperm Hr Hdec' Hkeys Hb) as H.
+        rewrite Hlen in H. rewrite Forall_forall in H. apply H, Ha.
+  - rewrite (Permutation_length Hrest), app_length, (Permutation_length Hr). reflexivity.
+Qed.
+
+(* The engine's output is exactly the requested slice of SOME correctly sorted
+   arrangement of the input (rows with equal keys may appear in any order). *)
+Theorem check_order_slice_sound cs inp off lim out :
+  Forall (srow_wf cs) inp ->
+  check_order_slice cs inp off lim out = true ->
+  exists p, Permutation p inp /\ Sorted (fun a b => sle cs a b = true) p /\
+    out = match lim with Some n => slice off n p | None => skipn off p end.
+Proof.
+  intros Hwf H. unfold check_order_slice in H.
+  apply andb_prop in H. destruct H as [H Hkeys]. apply andb_prop in H. destruct H as [Hbag Hsorted].
+  apply keys_eqb_Forall2 in Hkeys.
+  pose proof (Forall2_length_eq _ _ _ Hkeys) as Hlen.
+  pose proof (Permutation_length (isort_perm cs inp)) as Hls.
+  destruct lim as [n|].
+  - destruct (order_slice_core cs inp off out (slice off n (isort cs inp))
+                (skipn n (skipn off (isort cs inp))) Hwf Hbag Hsorted) as (r & Hp & Hs & Hl).
+    { unfold slice. symmetry. apply firstn_skipn. }
+    { exact Hkeys. }
+    exists (firstn off r ++ out ++ skipn off r). split; [exact Hp|]. split; [exact Hs|].
+    unfold slice in Hlen |- *. rewrite firstn_length, skipn_length in Hlen.
+    destruct (Nat.le_gt_cases off (length r)) as [Hle|Hgt].
+    + rewrite (skipn_app_len (firstn off r)) by (apply firstn_length_le; exact Hle).
+      destruct (Nat.eq_dec n (length out)) as [En|Nn].
+      * rewrite firstn_app_len by (symmetry; exact En). reflexivity.
+      * rewrite (skipn_all2 r) by lia. rewrite app_nil_r. rewrite firstn_all2 by lia. reflexivity.
+    + destruct out as [|o0 out']; [|cbn [length] in *; lia].
+      cbn [app]. rewrite firstn_skipn. rewrite skipn_all2 by lia. rewrite firstn_nil. reflexivity.
+  - destruct (order_slice_core cs inp off out (skipn off (isort cs inp)) [] Hwf Hbag Hsorted)
+      as (r & Hp & Hs & Hl).
+    { symmetry. apply app_nil_r. }
+    { exact Hkeys. }
+    exists (firstn off r ++ out ++ skipn off r). split; [exact Hp|]. split; [exact Hs|].
+    rewrite skipn_length in Hlen.
+    destruct (Nat.le_gt_cases off (length r)) as [Hle|Hgt].
+    + rewrite (skipn_app_len (firstn off r)) by (apply firstn_length_le; exact Hle).
+      rewrite (skipn_all2 r) by lia. rewrite app_nil_r. reflexivity.
+    + destruct out as [|o0 out']; [|cbn [length] in *; lia].
+      cbn [app]. rewrite firstn_skipn. rewrite skipn_all2 by lia. reflexivity.
+Qed.
+
+(* the same with the hypotheses spelled out on key columns and key rows; the
+   kty_ok hypothesis is not used: the declared order is a total preorder on
+   well-formed values whatever the source constants are *)
+Corollary check_order_slice_sound_kty_ok cs inp off lim out :
+  Forall (fun c => kty_ok (k_ty c)) cs ->
+  Forall (fun x : srow => Forall2 (fun c v => val_wf (k_ty c) v) cs (fst x)) inp ->
+  check_order_slice cs inp off lim out = true ->
+  exists p, Permutation p inp /\ Sorted (fun a b => sle cs a b = true) p /\
+    out = match lim with Some n => slice off n p | None => skipn off p end.
+Proof. intros _ Hwf. apply check_order_slice_sound. exact Hwf. Qed.
+
+(* ---------- 8. the checker on a concrete case ---------- *)
+
+Module Example.
+  (* ORDER BY k1 ASC NULLS LAST, k2 DESC NULLS FIRST over two i32 key columns *)
+  Definition cs : list kcol :=
+    [ {| k_ty := KS 4; k_desc := false; k_nulls_first := false |};
+      {| k_ty := KS 4; k_desc := true;  k_nulls_first := true  |} ].
+  Definition i (z : N) : kval := KBits z.
+  Definition neg1 : kval := KBits 4294967295%N.          (* -1 as an i32 bit pattern *)
+  Definition row (k1 k2 : kval) (id : N) : srow := ([k1; k2], [KBits id]).
+
+  Definition inp : list srow :=
+    [ row (i 2) (i 5) 0; row (i 1) KNull 1; row (i 1) (i 7) 2; row KNull (i 3) 3;
+      row (i 1) (i 7) 4; row (i 2) (i 9) 5; row (i 1) (i 3) 6; row neg1 (i 2) 7 ]%N.
+
+  (* the declared order: -1 | 1,NULL | 1,7 | 1,7 | 1,3 | 2,9 | 2,5 | NULL,3 *)
+  Example sorted_ids :
+    map snd (isort cs inp) = map (fun n => [KBits n]) [7; 1; 2; 4; 6; 5; 0; 3]%N.
+  Proof. vm_compute. reflexivity. Qed.
+
+  (* OFFSET 3 LIMIT 3.  The model's own slice is rows 4,6,5; an engine that breaks the
+     tie between rows 2 and 4 (equal keys 1,7) the other way returns 2,6,5: accepted *)
+  Example accept_model_slice :
+    check_order_slice cs inp 3 (Some 3)
+      [row (i 1) (i 7) 4; row (i 1) (i 3) 6; row (i 2) (i 9) 5]%N = true.
+  Proof. vm_compute. reflexivity. Qed.
+
+  Example accept_tie_swapped :
+    check_order_slice cs inp 3 (Some 3)
+      [row (i 1) (i 7) 2; row (i 1) (i 3) 6; row (i 2) (i 9) 5]%N = true.
+  Proof. vm_compute. reflexivity. Qed.
+
+  (* OFFSET 6, no limit: the NULL key comes last *)
+  Example accept_no_limit :
+    check_order_slice cs inp 6 None [row (i 2) (i 5) 0; row KNull (i 3) 3]%N = true.
+  Proof. vm_compute. reflexivity. Qed.
+
+  (* rejected: k2 ascending inside k1 = 1 (DESC ignored) *)
+  Example reject_wrong_order :
+    check_order_slice cs inp 3 (Some 3)
+      [row (i 1) (i 3) 6; row (i 1) (i 7) 4; row (i 2) (i 9) 5]%N = false.
+  Proof. vm_compute. reflexivity. Qed.
+
+  (* rejected: sorted and drawn from the input, but not the rows at offset 3 *)
+  Example reject_wrong_window :
+    check_order_slice cs inp 3 (Some 3)
+      [row (i 1) (i 7) 4; row (i 1) (i 3) 6; row (i 2) (i 5) 0]%N = false.
+  Proof. vm_compute. reflexivity. Qed.
+
+  (* rejected: NULL placed first in k1 (NULLS LAST ignored) *)
+  Example reject_null_first :
+    check_order_slice cs inp 0 (Some 2) [row KNull (i 3) 3; row neg1 (i 2) 7]%N = false.
+  Proof. vm_compute. reflexivity. Qed.
+
+  (* rejected: right keys, but a payload that is not in the input *)
+  Example reject_foreign_row :
+    check_order_slice cs inp 3 (Some 3)
+      [row (i 1) (i 7) 9; row (i 1) (i 3) 6; row (i 2) (i 9) 5]%N = false.
+  Proof. vm_compute. reflexivity. Qed.
+
+  (* rejected: one row short *)
+  Example reject_short :
+    check_order_slice cs inp 3 (Some 3) [row (i 1) (i 7) 4; row (i 1) (i 3) 6]%N = false.
+  Proof. vm_compute. reflexivity. Qed.
+
+  (* the input is well-formed, so the soundness theorem applies to the accepted case *)
+  Lemma inp_wf : Forall (srow_wf cs) inp.
+  Proof.
+    unfold inp. repeat constructor; cbn [val_wf k_ty fst]; try exact I;
+      apply N.ltb_lt; vm_compute; reflexivity.
+  Qed.
+
+  Example accepted_is_a_slice_of_a_sorted_permutation :
+    exists p, Permutation p inp /\ Sorted (fun a b => sle cs a b = true) p /\
+      [row (i 1) (i 7) 2; row (i 1) (i 3) 6; row (i 2) (i 9) 5]%N = slice 3 3 p.
+  Proof. apply (check_order_slice_sound cs inp 3 (Some 3) _ inp_wf accept_tie_swapped). Qed.
+End Example.
+
+Print Assumptions row_cmp_antisym.
+Print Assumptions rle_total.
+Print Assumptions row_cmp_trans.
+Print Assumptions isort_perm.
+Print Assumptions isort_sorted.
+Print Assumptions sortedb_Sorted.
+Print Assumptions sub_bag_sound.
+Print Assumptions check_order_slice_sound.
+Print Assumptions check_order_slice_sound_kty_ok.
+Print Assumptions Example.accepted_is_a_slice_of_a_sorted_permutation.
